@@ -33,6 +33,7 @@ structure OGMDrv where
   model : Option St := none
   firedSeen : Nat := 0            -- how many entries of the model's `fired` have been compared
   dead : Bool := false
+  diverged : Bool := false        -- model and implementation have disagreed in this history (reported once); monitors go on
   pendingOp : String := ""
   pendingLine : Nat := 0
   -- monitor memory (about the implementation)
@@ -56,11 +57,12 @@ def nodupI : List Int → Bool
 
 def ogmLine (d : OGMDrv) (lineNo : Nat) (ts : List String) : OGMDrv × List String :=
   let mism (d : OGMDrv) (msg : String) : OGMDrv × List String :=
-    ({ d with dead := true, mismatches := d.mismatches + 1 }, [s!"MISMATCH ogm hist={d.hist} line={lineNo} {msg}"])
+    if d.diverged then (d, [])
+    else ({ d with diverged := true, mismatches := d.mismatches + 1 }, [s!"MISMATCH ogm hist={d.hist} line={lineNo} {msg}"])
   match ts with
   | "new" :: rest =>
     let h := (kvNat rest "h").getD (d.hist + 1)
-    ({ d with hist := h, model := some {}, firedSeen := 0, dead := false, curIds := [], curGc := 0, idxDistinct := true,
+    ({ d with hist := h, model := some {}, firedSeen := 0, dead := false, diverged := false, curIds := [], curGc := 0, idxDistinct := true,
               signalled := [], timedOut := false, firesThisSetup := 0, lastParts := [], pendingOp := "new", pendingLine := lineNo,
               cnt := d.cnt.bump "histories" }, [])
   | "end" :: _ => ({ d with model := none }, [])
@@ -87,11 +89,14 @@ def ogmLine (d : OGMDrv) (lineNo : Nat) (ts : List String) : OGMDrv × List Stri
       let known := knows m id
       let want := if known then ["ok"] else ["err", "notfound"]
       let d := { d with cnt := d.cnt.bump (if known then "ready" else "ready.unknown") }
-      if post != want then mism d s!"op=ready model={String.intercalate " " want} impl={String.intercalate " " post}"
-      else
-        ({ d with model := some (drain (step m (.ready id))), pendingOp := "ready", pendingLine := lineNo,
-                  lastOpUnknown := !(d.curIds.contains id), lastOpRepeat := d.signalled.contains id,
-                  signalled := if d.curIds.contains id then id :: d.signalled else d.signalled }, [])
+      -- the property itself, on the implementation's answer: a signal from somebody the current set-up does not name is rejected
+      let vUnknown := if !(d.curIds.contains id) && post == ["ok"] then ["C09.signal-from-an-unknown-participant-accepted"] else []
+      let outV := vUnknown.map (fun c => s!"MONITOR {c} layer=ogm hist={d.hist} line={lineNo}")
+      let d := { d with classes := vUnknown.foldl (fun c v => c.bump v) d.classes }
+      let (d, outM) := if post != want then mism d s!"op=ready model={String.intercalate " " want} impl={String.intercalate " " post}" else (d, [])
+      ({ d with model := some (drain (step m (.ready id))), pendingOp := "ready", pendingLine := lineNo,
+                lastOpUnknown := !(d.curIds.contains id), lastOpRepeat := d.signalled.contains id,
+                signalled := if d.curIds.contains id then id :: d.signalled else d.signalled }, outM ++ outV)
     | none => (d, [s!"BADLINE {lineNo}"])
   | ["timeout"] =>
     ({ d with model := some (drain (step m .timeout)), pendingOp := "timeout", pendingLine := lineNo, timedOut := true,
@@ -126,12 +131,16 @@ def ogmLine (d : OGMDrv) (lineNo : Nat) (ts : List String) : OGMDrv × List Stri
           (if d.timedOut || d.curIds.all (fun i => d.signalled.contains i) then []
            else if !d.idxDistinct then ["C09.fired-before-everybody-signalled.shared-index"]
            else ["C09.fired-before-everybody-signalled"])) []) ++
+        (if d.pendingOp == "setup" && !d.rebuiltAllReady &&
+            (ps.map (·.1)) != (partsKey (d.curIds.map (fun i => (i, (0 : Int), false)))).map (·.1)
+         then ["C09.gate-state-does-not-name-exactly-the-participants-of-the-set-up"] else []) ++
+        (if d.pendingOp == "setup" && ps.any (·.2.2) then ["C09.participant-shown-ready-before-signalling"] else []) ++
         (if d.pendingOp == "ready" && d.lastOpUnknown && (ps != d.lastParts || !fires.isEmpty) then ["C09.unknown-signal-changed-the-gate"] else []) ++
         (if d.pendingOp == "ready" && d.lastOpRepeat && ps != d.lastParts then ["C09.repeated-signal-changed-the-gate"] else [])
       let out2 := viol.map (fun c => s!"MONITOR {c} layer=ogm hist={d.hist} line={d.pendingLine}")
       let d := { d with classes := viol.foldl (fun c v => c.bump v) d.classes, firesThisSetup := n, lastParts := ps,
                         firedSeen := m.fired.length, cnt := d.cnt.bump "fires" fires.length }
-      if out1.isEmpty then (d, out2) else ({ d with dead := true, mismatches := d.mismatches + 1 }, out1 ++ out2)
+      if out1.isEmpty || d.diverged then (d, out2) else ({ d with diverged := true, mismatches := d.mismatches + 1 }, out1 ++ out2)
     | _, _, _ => (d, [s!"BADLINE {lineNo} ogm-obs"])
   | _ => (d, [s!"BADLINE {lineNo} unknown-ogm-op"])
 
